@@ -142,6 +142,16 @@ func init() {
 				fc := c.cfgOf(u, nil)
 				// locals defined from X.Int (directly or int(X.Int))
 				lispInt := map[types.Object]bool{}
+				// ... and locals that receive a number parsed out of program-supplied text
+				ast.Inspect(body, func(n ast.Node) bool {
+					as, ok := n.(*ast.AssignStmt)
+					if ok && len(as.Rhs) == 1 && len(as.Lhs) == 2 && isStrconvInt(info, as.Rhs[0]) {
+						if o := identObj(info, as.Lhs[0]); o != nil {
+							lispInt[o] = true
+						}
+					}
+					return true
+				})
 				ast.Inspect(body, func(n ast.Node) bool {
 					as, ok := n.(*ast.AssignStmt)
 					if !ok || len(as.Lhs) != len(as.Rhs) {
@@ -191,6 +201,11 @@ func init() {
 					hinfo := hu.Pkg.TypesInfo
 					hInt := map[types.Object]bool{}
 					ast.Inspect(hfd.Body, func(m ast.Node) bool {
+						if a2, ok := m.(*ast.AssignStmt); ok && len(a2.Rhs) == 1 && len(a2.Lhs) == 2 && isStrconvInt(hinfo, a2.Rhs[0]) {
+							if o := identObj(hinfo, a2.Lhs[0]); o != nil {
+								hInt[o] = true
+							}
+						}
 						if a2, ok := m.(*ast.AssignStmt); ok && len(a2.Lhs) == len(a2.Rhs) {
 							for i, r := range a2.Rhs {
 								if FieldOfSelector(hinfo, ast.Unparen(r)) == intFld {
@@ -225,6 +240,11 @@ func init() {
 							if _, isConst := intConst(hinfo, r); isConst {
 								continue // an error return
 							}
+							if cv, ok := r.(*ast.CallExpr); ok && len(cv.Args) == 1 {
+								if tv, ok := hinfo.Types[cv.Fun]; ok && tv.IsType() {
+									r = ast.Unparen(cv.Args[0]) // int(idx)
+								}
+							}
 							ro := identObj(hinfo, r)
 							if ro == nil || !hInt[ro] {
 								consistent = false
@@ -241,6 +261,58 @@ func init() {
 					}
 					return true
 				})
+				// copy locals: a local with at least one definition that is a plain copy of a lisp-integer
+				// local (`argIdx = idx`); a fact about it may be established on the source before the copy
+				type copyDef struct {
+					at  ast.Node
+					src types.Object // nil: a definition from something that is not a lisp integer
+				}
+				copies := map[types.Object][]copyDef{}
+				ast.Inspect(body, func(n ast.Node) bool {
+					switch x := n.(type) {
+					case *ast.FuncLit:
+						return false
+					case *ast.AssignStmt:
+						if len(x.Lhs) != len(x.Rhs) {
+							return true
+						}
+						for i, l := range x.Lhs {
+							lo := identObj(info, l)
+							if lo == nil || lispInt[lo] {
+								continue
+							}
+							if _, isVia := via[lo]; isVia {
+								continue
+							}
+							src := identObj(info, x.Rhs[i])
+							if src != nil && !(lispInt[src]) {
+								if _, isVia := via[src]; !isVia {
+									src = nil
+								}
+							}
+							copies[lo] = append(copies[lo], copyDef{x, src})
+						}
+					case *ast.IncDecStmt:
+						if lo := identObj(info, x.X); lo != nil {
+							copies[lo] = append(copies[lo], copyDef{x, nil})
+						}
+					case *ast.ValueSpec:
+						for _, nm := range x.Names {
+							if lo := info.Defs[nm]; lo != nil {
+								copies[lo] = append(copies[lo], copyDef{x, nil})
+							}
+						}
+					}
+					return true
+				})
+				isCopy := func(o types.Object) bool {
+					for _, d := range copies[o] {
+						if d.src != nil {
+							return true
+						}
+					}
+					return false
+				}
 				ord := &ordinal{}
 				// term: the spelling of a bound that comes straight from a lisp integer, or ""
 				term := func(e ast.Expr) string {
@@ -264,7 +336,21 @@ func init() {
 							return "via:" + o.Name()
 						}
 					}
+					if o := identObj(info, e); o != nil && isCopy(o) {
+						return "copy:" + o.Name()
+					}
 					return ""
+				}
+				copyOf := func(t string) (types.Object, bool) {
+					if !strings.HasPrefix(t, "copy:") {
+						return nil, false
+					}
+					for o := range copies {
+						if o.Name() == t[5:] && isCopy(o) {
+							return o, true
+						}
+					}
+					return nil, false
 				}
 				viaOf := func(t string) (viaHelper, bool) {
 					if !strings.HasPrefix(t, "via:") {
@@ -286,6 +372,65 @@ func init() {
 					}
 					for _, f := range facts {
 						holds := false
+						// a copy local: the fact holds on the local itself between copy and use, or was
+						// established on the source before every copy (definitions from anything else
+						// — a counter, a constant — are not lisp integers and need no fact)
+						cl, okcl := copyOf(f.lo)
+						ch, okch := copyOf(f.hi)
+						if okcl || okch {
+							co := cl
+							side := "lo"
+							if !okcl {
+								co, side = ch, "hi"
+							}
+							own := f
+							if side == "lo" {
+								own.lo = co.Name()
+							} else {
+								own.hi = co.Name()
+							}
+							if okcl && okch {
+								own.lo, own.hi = cl.Name(), ch.Name()
+							}
+							cut := factEdges(fc, info, body, own, nil)
+							holds = len(cut) > 0 && !fc.reachableAvoiding(loc.B, cut)
+							if !holds && !(okcl && okch) {
+								holds = true
+								for _, d := range copies[co] {
+									if d.src == nil {
+										continue
+									}
+									sf := f
+									if side == "lo" {
+										sf.lo = d.src.Name()
+									} else {
+										sf.hi = d.src.Name()
+									}
+									dl, ok := fc.Locate(d.at)
+									scut := factEdges(fc, info, body, sf, nil)
+									if !ok || len(scut) == 0 || fc.reachableAvoiding(dl.B, scut) {
+										holds = false
+									}
+								}
+							}
+							if !holds {
+								lo, hi := own.lo, own.hi
+								if lo == "" {
+									lo = "0"
+								}
+								if f.hiIsLen {
+									hi = "a length"
+								}
+								rel := "<="
+								if f.strict {
+									rel = "<"
+								}
+								obs = append(obs, mkOb(c, "BOUNDS.lisp-int", u, construct, site, Violated,
+									fmt.Sprintf("`%s` is reached without `%s %s %s` having been established (on the bound or on the lisp integer it was copied from): a lisp integer out of range panics in the Go runtime here (internal-panic instead of an ordinary error)", types.ExprString(site), lo, rel, hi), true))
+								return
+							}
+							continue
+						}
 						vl, okl := viaOf(f.lo)
 						vh, okh := viaOf(f.hi)
 						if okl || okh {
@@ -391,6 +536,15 @@ func init() {
 			}
 			return obs
 		}})
+}
+
+// isStrconvInt: e is a call of strconv.Atoi / ParseInt / ParseUint.
+func isStrconvInt(info *types.Info, e ast.Expr) bool {
+	ce, ok := ast.Unparen(e).(*ast.CallExpr)
+	if !ok {
+		return false
+	}
+	return stdFuncCalled(info, ce, "strconv", "Atoi") || stdFuncCalled(info, ce, "strconv", "ParseInt") || stdFuncCalled(info, ce, "strconv", "ParseUint")
 }
 
 func init() {
